@@ -1177,3 +1177,72 @@ func ruleStakingPeriodFromRequest(c *report.Ctx) {
 		c.Fail("constructStakingTxOut", "no caller of the staking output builder found (anchor lost)", "")
 	}
 }
+
+// ruleHeightFromSameReadTransaction (C17): the tip a coin query counts confirmations from is read in the very read
+// transaction that reads the coins.
+func ruleHeightFromSameReadTransaction(c *report.Ctx) {
+	p := c.P
+	c.Rule("height-from-same-transaction", "the synced height handed to UtxoStore.WalletBalance / ScriptAddressBalance / ScriptAddressUnspents is the Height of what SyncStore.SyncedTo returned for the same transaction value the coins are read with: a height taken from anywhere else (the handler's in-memory tip, an earlier transaction) pairs the coins of one committed state with the tip of another — after a commit that moved the tip by more than one block an immature coin is counted spendable", 4)
+	syncedTo := fn(c, pkgTxmgr, "SyncStore", "SyncedTo")
+	if syncedTo == nil {
+		return
+	}
+	var sinks []*ssa.Function
+	for _, n := range []string{"WalletBalance", "ScriptAddressBalance", "ScriptAddressUnspents"} {
+		if f := fn(c, pkgTxmgr, "UtxoStore", n); f != nil {
+			sinks = append(sinks, f)
+		}
+	}
+	bm := p.Type(pkgTxmgr, "BlockMeta")
+	n := 0
+	for _, f := range p.ModFuncs {
+		if pk := an.FuncPkg(f); pk == nil || !(pk.Path() == pkgWallet || pk.Path() == pkgAPI) {
+			continue
+		}
+		for _, sink := range sinks {
+			for i, s := range calls(f, sink) {
+				cc := an.CallOf(s)
+				// the uint64 height parameter and the transaction parameter of the sink
+				hi, ti := -1, -1
+				for k, par := range sink.Params {
+					if b, ok := par.Type().Underlying().(*types.Basic); ok && b.Kind() == types.Uint64 && hi < 0 {
+						hi = k
+					}
+					if nt := an.NamedOf(par.Type()); nt != nil && nt.Obj().Name() == "ReadTransaction" && ti < 0 {
+						ti = k
+					}
+				}
+				if hi < 0 || ti < 0 || hi >= len(cc.Args) {
+					continue
+				}
+				n++
+				key := siteKey(f, nm(sink)+"-height", i+1)
+				h := stripConv(cc.Args[hi])
+				ok, why := false, p.Desc(h)
+				if ld, isLd := h.(*ssa.UnOp); isLd && bm != nil && isFieldLoad(ld, bm, "Height") {
+					if fa, isFA := ld.X.(*ssa.FieldAddr); isFA {
+						base := an.ResolveCell(fa.X)
+						if ex, isEx := base.(*ssa.Extract); isEx {
+							base = ex.Tuple
+						}
+						if call, isCall := base.(*ssa.Call); isCall && call.Call.StaticCallee() == syncedTo && len(call.Call.Args) > 1 {
+							if an.ResolveCell(call.Call.Args[1]) == an.ResolveCell(cc.Args[ti]) {
+								ok = true
+							} else {
+								why = "SyncedTo of another transaction (" + p.Desc(call.Call.Args[1]) + ")"
+							}
+						}
+					}
+				}
+				if ok {
+					c.OK(key, "SyncedTo(tx).Height of the transaction the coins are read with", posOf(c, s))
+				} else {
+					c.Fail(key, "the tip height of this coin query is "+why+", not the synced-to block read in the query's own read transaction: coins and tip can come from two different committed states (a query right after a reorganisation's commit counts confirmations from the abandoned tip and reports an immature coin spendable)", posOf(c, s))
+				}
+			}
+		}
+	}
+	if n == 0 {
+		c.Fail("coin-queries", "no coin query with a tip height found (anchor lost)", "")
+	}
+}
